@@ -48,6 +48,11 @@ def _d14b(f):
     return _d14(f)
 
 
+@predicate('D14c')
+def _d14c(f):
+    return _d14(f)
+
+
 @predicate('D14')
 def _d14(f):
     """Non-adjacent same-day SELL lines of one security stay separate sales (per-leg gain split differs)."""
